@@ -11,7 +11,6 @@ DIGITS = b"0123456789"
 ALLPRINT = bytes(range(0x21, 0x7f))
 BIG = [0, 1, 2, 255, 256, 65535, 65536, 2**31 - 1, 2**31, 2**32 - 1, 2**32, 2**32 + 1, 2**40 + 12345, 2**53, 2**53 + 1,
        2**62, 2**63 - 2, 2**63 - 1]
-KNOWN_CROSS = "C06:cross-class-duplicate"
 
 
 def ssi_image(files_full, subseq, pk, al):
@@ -142,20 +141,22 @@ class C06(Prop):
     harness = "h_ssi.c"
     theorems = ["EaselModel.Props.C06." + t for t in (
         "codec_roundtrip", "codec_bigendian", "bsearch_correct", "write_spec", "write_ok_iff_distinct", "write_dup_no_file",
-        "written_file", "open_written", "open_rejects", "findName_stored", "findName_alias_partial", "findName_absent", "findNumber_sorted",
-        "fileInfo_spec", "internal_eq_external", "auto_switch_trigger", "external_is_permanent", "history_write", "history_index_correct", "history_alias_partial", "history_enumeration", "findSubseq_spec", "findSubseq_erange", "exCross_wf",
-        "cross_class_duplicate_accepted")]
+        "written_file", "open_written", "open_rejects", "findName_stored", "findName_alias", "findName_absent", "findNumber_sorted",
+        "fileInfo_spec", "internal_eq_external", "auto_switch_trigger", "external_is_permanent", "history_write", "history_index_correct", "history_alias", "history_enumeration", "findSubseq_spec", "findSubseq_erange", "exCross_wf",
+        "findSubseq_alias", "findSubseq_absent", "open_any_bytes", "bsearch_any_array", "findName_any_index", "findName_no_fault",
+        "findNumber_any_index", "fileInfo_any_index", "findSubseq_any_index",
+        "cross_class_duplicate_rejected")]
     claimed = True
     technique = ("Lean 4 proof about an executable model of esl_ssi.c (writer, on-disk layout, binary search, alias indirection) "
                  "+ exact differential correspondence (index bytes and every lookup) with the ASan/UBSan-built library")
     level_text = ("Theorems (Lean 4, no bound on the number or length of keys beyond names/keys < 64 KB and < 2^40 keys) about an executable model that mirrors esl_ssi.c: "
                   "big-endian u16/u32/u64/offset codecs round-trip every value; THIS binary search is correct on every strictly strcmp-sorted record array; "
-                  "for every history of AddFile/SetSubseq/AddKey/AddAlias calls with the switch to the external sort at any point, Write succeeds iff the primary keys are pairwise distinct and the aliases are pairwise distinct "
-                  "(else eslEDUP and no index file), and the external path emits the same bytes as the in-memory path; the automatic switch fires exactly when current_newssi_size() >= max_ram before an Add call and is permanent; on the written bytes Open succeeds, FindName returns exactly the stored record for every primary key and "
+                  "for every history of AddFile/SetSubseq/AddKey/AddAlias calls with the switch to the external sort at any point, Write succeeds iff ALL keys are distinct — no primary key twice, no alias twice, no alias that is also a primary key "
+                  "(else eslEDUP and no index file; the cross-class case is cross_duplicate()'s merge pass over the two sorted streams, modelled line by line), and the external path emits the same bytes as the in-memory path; the automatic switch fires exactly when current_newssi_size() >= max_ram before an Add call and is permanent; on the written bytes Open succeeds, FindName returns exactly the stored record for every primary key and "
                   "every alias, eslENOTFOUND for every other string, FindNumber enumerates the keys in strcmp order, FileInfo returns name/format/line geometry. "
                   "The model is tied to the working tree on every run by an exact differential run (index bytes and every lookup) against the ASan/UBSan build, plus an independent oracle on the library's outputs.")
-    level_note = ("Known finding C06:cross-class-duplicate (an alias equal to a primary key is accepted and shadowed; proved as a counter-example, witness replayed on the real code each run): the alias lookup theorem carries the hypothesis "
-                  "'alias is not a primary key' and Write's iff is per key class. Alias lookup also assumes AddAlias's documented precondition (target is a registered primary key). "
+    level_note = ("Alias lookup assumes AddAlias's documented precondition (the target is a registered primary key). The former known finding C06:cross-class-duplicate is repaired "
+                  "(cross_duplicate() in esl_newssi_Write); its witness is a regression case and `cross_class_duplicate_rejected` a theorem. "
                   "Trusted: Lean kernel + propext/Classical.choice/Quot.sound; the hand model's fidelity is checked by the differential run, not proved; qsort, sort(1) in the POSIX locale, system(), stdio are modelled (sort = bytewise sort of the lines); "
                   "little-endian host with 64-bit off_t; esl_ssi_FindSubseq's theorem is for stored primary keys with a registered file handle; corrupt index files are outside the property.")
     diverge_is_violation = True
@@ -167,7 +168,7 @@ class C06(Prop):
                    "esl_newssi_AddAlias's documented precondition (the target is a registered primary key) is a hypothesis of the lookup theorems",
                    "keys are non-empty NUL-free strings without TAB/newline (the property's quantifier: printable non-blank)",
                    "covered C functions: esl_newssi_AddFile/SetSubseq/AddKey/AddAlias/Write/Close, current_newssi_size, activate_external_sort, parse_pkey, parse_skey, "
-                   "pkeysort, skeysort, esl_ssi_Open/FindName/FindNumber/FindSubseq/FileInfo/Close, binary_search, esl_byteswap, esl_hton*/ntoh*, esl_fwrite_u16/u32/u64/i64/offset, "
+                   "pkeysort, skeysort, cross_duplicate, esl_ssi_Open/FindName/FindNumber/FindSubseq/FileInfo/Close, binary_search, esl_byteswap, esl_hton*/ntoh*, esl_fwrite_u16/u32/u64/i64/offset, "
                    "esl_fread_u16/u32/u64/i64/offset; from easel.c esl_FileTail, esl_strtok, esl_fgets (as 'read a line'), esl_strdup",
                    "the automatic switch (current_newssi_size() >= max_ram at the start of AddKey/AddAlias) is exercised with max_ram lowered to 1-3 MB through the public field, "
                    "including byte-exact boundaries of the size formula, and the library's `external` flag is compared after every call; the default 2048 MB threshold itself is covered by the theorems only",
@@ -244,7 +245,8 @@ class C06(Prop):
         return probes
 
     def gen_case(self, rng, name, nfiles, nkeys, nalias, mode, probe_limit=60):
-        """mode: 'int' | 'ext' | 'both' (internal then external at a random point; bytes must agree) | 'dupP' | 'dupA'"""
+        """mode: 'int' | 'ext' | 'both' (internal then external at a random point; bytes must agree) | 'dupP' | 'dupA' |
+        'dupX' (an alias that is also a primary key: first / last / any key of either class)"""
         kg = KeyGen(rng)
         files = []
         for i in range(nfiles):
@@ -271,6 +273,16 @@ class C06(Prop):
         al = kg.many(nalias) if keys else []
         aliases = [(a, rng.choice(keys)[0]) for a in al]
         ops = []
+        if mode == "dupX" and not keys:
+            mode = "int"
+        if mode == "dupX":
+            pick = lambda lst: rng.choice([min(lst), max(lst), rng.choice(lst), rng.choice(lst)])   # smallest / largest / any
+            d = pick(keys)
+            aliases.insert(rng.choice([0, len(aliases), rng.randrange(len(aliases) + 1)]), (d[0], rng.choice(keys)[0]))
+            if rng.random() < 0.15:      # a second alias that is a primary key
+                d2 = pick(keys)
+                if d2[0] != d[0]:
+                    aliases.append((d2[0], d[0]))
         if mode in ("dupP", "dupA"):
             pick = lambda lst: rng.choice([min(lst), max(lst), rng.choice(lst), rng.choice(lst)])   # smallest / largest / any
             if mode == "dupP" and keys:
@@ -286,7 +298,7 @@ class C06(Prop):
                 mode = "int"
         n_adds = len(keys) + len(aliases)
         merged = self._merge(rng, keys, aliases)
-        if mode in ("dupP", "dupA"):
+        if mode in ("dupP", "dupA", "dupX"):
             ext = rng.choice([None, 0, rng.randint(0, n_adds), n_adds])
             ops += self._build_ops(files, merged, ext, subseq)
             ops.append("open")
@@ -502,10 +514,24 @@ class C06(Prop):
             "subseq k=%s start=0" % hx(b"good"), "subseq k=%s start=-1" % hx(b"good"), "subseq k=%s start=1" % hx(b"good"), "subseq k=%s start=60" % hx(b"good"), "subseq k=%s start=61" % hx(b"good"), "subseq k=%s start=130" % hx(b"good"),
             "subseq k=%s start=131" % hx(b"good"), "subseq k=%s start=3" % hx(b"good2"), "subseq k=%s start=121" % hx(b"al"), "subseq k=%s start=1" % hx(b"nope"),
             "findnum i=0", "findnum i=1", "findnum i=2", "fileinfo fh=0", "close"]})
-        # the known cross-class duplicate (DESIGN §7 item 14): Write does not notice alias == primary key
-        c.append({"name": "cross-class-duplicate", "sticky": 1, "known_key": KNOWN_CROSS, "ops": [
+        # regression (was known finding C06:cross-class-duplicate, DESIGN §7 item 14): alias == primary key is a duplicate
+        c.append({"name": "cross-class-duplicate", "sticky": 1, "ops": [
             "new", "addfile name=%s fmt=1" % hx(b"f"), "addkey k=%s fh=0 r=1 d=2 L=3" % hx(b"k1"), "addkey k=%s fh=0 r=4 d=5 L=6" % hx(b"k2"),
             "addalias a=%s k=%s" % (hx(b"k2"), hx(b"k1")), "write", "open", "find k=%s" % hx(b"k2"), "close"]})
+        for nm, extat in (("first", 1), ("mid", 3), ("late", 8)):      # ... through the external sort, switched at different points; smallest / largest key
+            ops = ["new", "addfile name=%s fmt=1" % hx(b"f"), "addkey k=%s fh=0 r=1 d=2 L=3" % hx(b"k1"), "addkey k=%s fh=0 r=4 d=5 L=6" % hx(b"k2"),
+                   "addkey k=%s fh=0 r=7 d=8 L=9" % hx(b"k3"), "addalias a=%s k=%s" % (hx(b"a0"), hx(b"k3")),
+                   "addalias a=%s k=%s" % (hx({"first": b"k1", "mid": b"k2", "late": b"k3"}[nm]), hx(b"k1")), "addalias a=%s k=%s" % (hx(b"z9"), hx(b"k3"))]
+            ops.insert(extat + 1, "external")
+            c.append({"name": "cross-class-duplicate-ext-" + nm, "sticky": 1, "ops": ops + ["isext", "write", "open"]})
+        # aliases that are prefixes / extensions / neighbours of primary keys are NOT duplicates
+        c.append({"name": "cross-class-near", "sticky": 1, "ops": [
+            "new", "addfile name=%s fmt=1" % hx(b"f"), "addkey k=%s fh=0 r=1 d=2 L=3" % hx(b"k1"), "addkey k=%s fh=0 r=4 d=5 L=6" % hx(b"k2"),
+            "addalias a=%s k=%s" % (hx(b"k"), hx(b"k1")), "addalias a=%s k=%s" % (hx(b"k11"), hx(b"k2")), "addalias a=%s k=%s" % (hx(b"k3"), hx(b"k2")),
+            "addalias a=%s k=%s" % (hx(b"k0"), hx(b"k2")), "write", "external", "new", "addfile name=%s fmt=1" % hx(b"f"), "external",
+            "addkey k=%s fh=0 r=1 d=2 L=3" % hx(b"k1"), "addkey k=%s fh=0 r=4 d=5 L=6" % hx(b"k2"),
+            "addalias a=%s k=%s" % (hx(b"k"), hx(b"k1")), "addalias a=%s k=%s" % (hx(b"k11"), hx(b"k2")), "addalias a=%s k=%s" % (hx(b"k3"), hx(b"k2")),
+            "addalias a=%s k=%s" % (hx(b"k0"), hx(b"k2")), "write", "open"] + ["find k=%s" % hx(k) for k in (b"k", b"k11", b"k3", b"k0", b"k1", b"k2", b"k12")] + ["close"]})
         return c
 
     _exact_k = 0
@@ -540,8 +566,8 @@ class C06(Prop):
             if rng.random() < 0.04 and nkeys > 0:
                 nalias = rng.choice([127, 128, 129, 256, 257])
             m = rng.random()
-            mode = "both" if m < 0.45 else "ext" if m < 0.6 else "int" if m < 0.8 else "dupP" if m < 0.9 else "dupA"
-            if nkeys == 0 and mode in ("dupP", "dupA"):
+            mode = "both" if m < 0.45 else "ext" if m < 0.6 else "int" if m < 0.78 else "dupP" if m < 0.86 else "dupA" if m < 0.93 else "dupX"
+            if nkeys == 0 and mode in ("dupP", "dupA", "dupX"):
                 mode = "both"
             case = self.gen_case(rng, "gen%d-%s" % (c, mode), nfiles, nkeys, nalias, mode,
                                  probe_limit=40 if nkeys > 100 else 80)
@@ -567,11 +593,6 @@ class C06(Prop):
         if line.startswith("fault"):
             return "fault"
         return line
-
-    def compare(self, ctx, case, impl_out, model_out):
-        if case.get("known_key") == KNOWN_CROSS:
-            return None     # the witness of the known finding is judged by the monitor alone (the model mirrors the unrepaired code)
-        return Prop.compare(self, ctx, case, impl_out, model_out)
 
     def monitor(self, ctx, case, out):
         """The property, stated on what the library returned (independent of the Lean model)."""
@@ -654,8 +675,7 @@ class C06(Prop):
             elif name == "write":
                 f = dict(x.split("=", 1) for x in l.split()[1:] if "=" in x)
                 pks = [k[0] for k in pk]; als = [x[0] for x in al]
-                dup = len(set(pks)) != len(pks) or len(set(als)) != len(als)
-                cross = bool(set(pks) & set(als))
+                dup = len(set(pks + als)) != len(pks) + len(als)      # ALL keys distinct: an alias equal to a primary key is a duplicate too
                 if f.get("tmp") != "0" and not pretmp:
                     return fail("tmp files of the external sort left behind after Write+Close")
                 if a.get("nosort") == "1" and sim["ext"] and files:
@@ -666,16 +686,13 @@ class C06(Prop):
                 if not files:
                     cur = None          # an index without files is outside the property (1..40 files)
                     continue
-                if dup or (cross and st == "edup"):
-                    # (a cross-class duplicate reported as eslEDUP is what the property asks for: accepted, should the known finding get repaired)
+                if dup:
                     if st != "edup": return fail("Write of an index with duplicate keys returned %s (expected edup)" % st)
                     if f.get("file") != "0": return fail("Write failed with edup but left an index file behind")
                     cur = None
                 else:
                     if st != "ok": return fail("Write of an index with distinct keys returned %s" % st)
                     if f.get("file") != "1": return fail("Write returned ok but there is no index file")
-                    if cross:
-                        return fail("Write accepted an alias equal to a primary key (cross-class duplicate)", key=KNOWN_CROSS)
                     cur = {"files": list(files), "files_full": list(files_full), "subseq": dict(subseq), "pk": {k[0]: k[1:] for k in pk},
                            "al": dict(al), "sorted": sorted(pks)}
                     sig = (tuple(files), tuple(sorted(subseq.items())), tuple(sorted(pk)), tuple(sorted(al)))
